@@ -8,7 +8,7 @@ compare them across Doist / DoDoer and do / ado without comparing text.
 import ast
 
 from .absint import Domain, Interp, NORMAL, RETURN, BREAK, CONTINUE, RAISE, is_raise
-from .astutil import is_self_call, method_call, unparse, enclosing, parent, assigned_names, ancestors, keytext
+from .astutil import is_self_call, method_call, unparse, enclosing, parent, assigned_names, ancestors, keytext, flat
 from .deps import DepDomain, fs
 from .index import dotted, walk_local
 from .loader import AnalysisError
@@ -483,6 +483,17 @@ class RecurDeps(DepDomain):
         if pol is not None:
             self.asap_tests.append(test)
             return ("asap", truth == pol)
+        if isinstance(test, ast.BoolOp) and isinstance(test.op, ast.And) and not truth:
+            # not (retyme is not None and not retyme <= tyme)  ==  retyme is None or retyme <= tyme   (De Morgan)
+            neg = [v.operand if isinstance(v, ast.UnaryOp) and isinstance(v.op, ast.Not) else ast.UnaryOp(op=ast.Not(), operand=v) for v in test.values]
+            flipped = []
+            for v in neg:
+                if isinstance(v, ast.UnaryOp) and isinstance(v.op, ast.Not) and isinstance(v.operand, ast.Compare) and len(v.operand.ops) == 1 \
+                        and isinstance(v.operand.ops[0], (ast.Is, ast.IsNot)):
+                    c = v.operand
+                    v = ast.Compare(left=c.left, ops=[ast.Is() if isinstance(c.ops[0], ast.IsNot) else ast.IsNot()], comparators=c.comparators)
+                flipped.append(v)
+            return self.tag(ast.BoolOp(op=ast.Or(), values=flipped), True, state)
         if isinstance(test, ast.BoolOp) and isinstance(test.op, ast.Or) and truth:
             # `retyme is None or retyme <= tyme`: run now when marked rerun-asap or due; which of the two is decided by the
             # marker test that follows (path-sensitive)
@@ -541,7 +552,7 @@ def recur_facts(run, cls):
 
     # R2 marker appended before the loop, same deque, same end as re-appends
     marker = None
-    for st in f.node.body:
+    for st in flat(f.node.body):
         if st is loop:
             break
         for n in ast.walk(st):
@@ -648,7 +659,7 @@ def tick_facts(run, cls):
     if loops:
         loop = loops[0][0]
         after = False
-        for st in f.node.body:
+        for st in flat(f.node.body):
             if st is loop:
                 after = True
                 continue
@@ -1297,7 +1308,8 @@ def scheduler_fact_bundle(run, cls):
     for meth, what in (("recur", "recur"), ("remove", "remove")):
         f = ix.method(cls, meth)
         fs_ = conservation_facts(run, f, what)
-        out["conserve.%s" % what] = (tuple(sorted((x.name, x.ok) for x in fs_)), run.site(f))
+        # siblings are compared on what can happen to a popped deed (fate and verdict), not on which statement kinds lead there
+        out["conserve.%s" % what] = (tuple(sorted({(x.name.split("|")[0], x.ok) for x in fs_})), run.site(f))
     f = ix.method(cls, "exit")
     out["close-loop"] = (tuple(sorted((x.name, x.ok) for x in close_loop_facts(run, f))), run.site(f))
     f = ix.method(cls, "enter")
